@@ -11,6 +11,9 @@ CLAIMED = {
  "C02": dict(engine=E1, ref="5/C02", technique="property-based testing: generated balanced blocking programs under an owned scheduler with stale reads; oracle = no deadlock/livelock + virtual-time deadline bound for timed pops",
    text="Exploration of liveness under a scheduler the harness owns: every generated program is balanced by construction, so a state with no runnable thread and no timer is a lost wake-up. Stale reads make a missing seq_cst fence observable.",
    note="Trusts the futex model (wait = SC fence + compare + sleep atomically; wake = SC fence + wake) and fairness rules of the scheduler."),
+ "C18": dict(engine=E2, ref="5/C18", technique="model-based fuzzing: libFuzzer-decoded operation sequences over hash set/map/fixed table compared with std::unordered_set/map after every step (ASan + UBSan subset)",
+   text="Exploration by coverage-guided fuzzing of operation histories (construct default|n, emplace, find, clear, reserve, rehash, copy, move, swap, iterate, size) with colliding generated hashes; every step is compared with a reference container.",
+   note="Sequential histories only (concurrency is C03); trusts std::unordered_set/map as the reference; the default-constructed fixed table is treated as the documented zero-capacity placeholder."),
 }
 REASON_WIP = "check not built yet in this round (work in progress; see DESIGN.md section 5)"
 
